@@ -69,3 +69,110 @@ Proof.
   - inversion E; subst U S V. clear E.
     split; [exact SP | split; [exact SO1 | split; [exact SO2 | split; [exact OU | split; [exact OV | exact EE]]]]].
 Qed.
+
+(* ---------- flip keeps orthonormality also when U has fewer / more columns than V has rows (n_eigenvecs > min(shape)) ---------- *)
+Theorem flip_orthonormal_gen U V ub U' V' n : svd_flip Rops U V ub = (U', V') ->
+  orthonormal_cols (length U) (ncols U) (mg U) -> orthonormal_rows (length V) n (mg V) ->
+  orthonormal_cols (length U) (ncols U) (mg U') /\ orthonormal_rows (length V) n (mg V').
+Proof.
+  intros E OU OV.
+  assert (G : exists gu gv : nat -> R,
+            (forall t, (t < ncols U)%nat -> gu t * gu t = 1) /\ (forall t, (t < length V)%nat -> gv t * gv t = 1) /\
+            (forall i t, (t < ncols U)%nat -> mg U' i t = mg U i t * gu t) /\
+            (forall t j, (t < length V)%nat -> mg V' t j = mg V t j * gv t)).
+  { destruct ub.
+    - destruct (flip_u_entries _ _ _ _ E) as [EU EV].
+      assert (forall t, (t < ncols U)%nat -> su U t * su U t = 1) as Q.
+      { intros t Ht. apply fsign_sq. apply col_deciding_nonzero. now apply (orthonormal_col_nonzero _ _ _ _ Ht OU). }
+      exists (su U), (fun t => if (t <? ncols U)%nat then su U t else 1). split; [exact Q | split; [|split]].
+      + intros t _. destruct (Nat.ltb_spec t (ncols U)); [now apply Q | ring].
+      + exact EU.
+      + exact EV.
+    - destruct (flip_v_entries _ _ _ _ E) as [EV EU].
+      assert (forall t, (t < length V)%nat -> sv V t * sv V t = 1) as Q.
+      { intros t Ht. apply fsign_sq. apply row_deciding_nonzero. now apply (orthonormal_row_nonzero _ _ _ _ Ht OV). }
+      exists (fun t => if (t <? length V)%nat then sv V t else 1), (sv V). split; [|split; [exact Q | split]].
+      + intros t _. destruct (Nat.ltb_spec t (length V)); [now apply Q | ring].
+      + exact EU.
+      + intros t j _. apply EV. }
+  destruct G as (gu & gv & Qu & Qv & GU & GV). split.
+  - intros a b Ha Hb.
+    rewrite (rsum_ext _ _ (fun i => (gu a * gu b) * (mg U i a * mg U i b))) by (intros; rewrite !GU by assumption; ring).
+    rewrite rsum_scale, OU by assumption. destruct (Nat.eqb_spec a b) as [->|]; [rewrite Qu by assumption|]; ring.
+  - intros a b Ha Hb.
+    rewrite (rsum_ext _ _ (fun j => (gv a * gv b) * (mg V a j * mg V b j))) by (intros; rewrite !GV by assumption; ring).
+    rewrite rsum_scale, OV by assumption. destruct (Nat.eqb_spec a b) as [->|]; [rewrite Qv by assumption|]; ring.
+Qed.
+
+(* ---------- end to end for EVERY n_eigenvecs (None, 0, > min(shape), > max(shape)) ---------- *)
+Theorem interface_truncated_e2e_gen (oracle : bool -> triple R) d1 d2 (Mf : nat -> nat -> R) (Ml : list (list R))
+    n flip ub iters sq eps U Sg V :
+  (forall f, svd_contract d1 d2 Mf f (oracle f)) -> (1 <= d1)%nat ->
+  svd_interface Rops (fun _ _ => truncated_svd oracle d1 d2 n) MTruncated d2 Ml n flip ub None None iters sq eps
+    = Ok (U, Sg, V) ->
+  let k := n_kept d1 d2 n in
+  let So := snd (fst (oracle (full_flag d1 d2 n))) in
+  Sg = firstn k So /\ nonneg_list Sg /\ nonincreasing Sg /\
+  orthonormal_cols d1 (Nat.min k d1) (mg U) /\ orthonormal_rows (Nat.min k d2) d2 (mg V) /\
+  rsum d1 (fun i => rsum d2 (fun j => (Mf i j - recon U Sg V i j)^2))
+    = rsum (Nat.min d1 d2 - k) (fun t => (nth (k + t) So 0)^2).
+Proof.
+  intros HC Hd1 E k So. rewrite interface_unfold in E by discriminate.
+  pose proof (truncated_shapes R oracle d1 d2 n (fun f => svd_contract_shape _ _ _ _ _ (HC f))) as SH.
+  pose proof (truncated_S_prefix R oracle d1 d2 n) as SP.
+  pose proof (truncated_S_ordered oracle d1 d2 n) as SO.
+  pose proof (truncated_orthonormal oracle d1 d2 Mf n HC) as OO.
+  pose proof (truncated_error oracle d1 d2 Mf n HC) as EE. cbv zeta in SH, OO, EE. fold k in SH, SP, OO, EE. fold So in SP, EE.
+  assert (SOH : forall f, nonneg_list (snd (fst (oracle f))) /\ nonincreasing (snd (fst (oracle f)))).
+  { intros f. specialize (HC f). destruct (oracle f) as [[U0 S0] V0]. destruct HC as (_ & _ & _ & N1 & N2 & _). now split. }
+  specialize (SO SOH). cbv zeta in SO. destruct SO as (SO1 & SO2 & _).
+  destruct (truncated_svd oracle d1 d2 n) as [[U0 S0] V0] eqn:T. cbn [fst snd] in SP, SO1, SO2.
+  destruct SH as (RU & LS & RV). destruct OO as [OU OV].
+  assert (NU : ncols U0 = Nat.min k d1) by (apply (rect_ncols d1 _ U0 RU); lia).
+  destruct RU as [LU _]. destruct RV as [LV _].
+  destruct flip.
+  - destruct (svd_flip Rops U0 V0 ub) as [U1 V1] eqn:FL. inversion E; subst U Sg V. clear E.
+    split; [exact SP | split; [exact SO1 | split; [exact SO2|]]].
+    destruct (flip_orthonormal_gen U0 V0 ub U1 V1 d2 FL) as [O1 O2].
+    { rewrite LU, NU. exact OU. } { rewrite LV. exact OV. }
+    rewrite LU, NU in O1. rewrite LV in O2. split; [exact O1 | split; [exact O2|]].
+    rewrite <- EE. apply rsum_ext; intros i _. apply rsum_ext; intros j _. f_equal. f_equal. unfold recon.
+    apply (flip_product U0 V0 ub U1 V1 (fun t => nth t S0 0) (length S0) FL); try lia.
+    intros t Ht. rewrite LS in Ht. destruct ub.
+    + rewrite LU. apply (orthonormal_col_nonzero d1 (Nat.min k d1) (mg U0) t); [lia | exact OU].
+    + apply (orthonormal_row_nonzero (Nat.min k d2) d2 (mg V0) t); [lia | exact OV].
+  - inversion E; subst U Sg V. clear E.
+    split; [exact SP | split; [exact SO1 | split; [exact SO2 | split; [exact OU | split; [exact OV | exact EE]]]]].
+Qed.
+
+(* ---------- "best approximation of that rank": as far as it goes without Eckart-Young ----------
+   The Eckart-Young-Mirsky inequality itself (no matrix of rank <= k is closer to M in Frobenius norm than the sum of the
+   discarded squared singular values) is NOT available in any installed library and is NOT proved here: it is the named
+   Section hypothesis eckart_young; the theorem below is therefore _partial. *)
+Section EckartYoung.
+Variables (d1 d2 : nat) (Mf : nat -> nat -> R).
+Definition frob2 (X : nat -> nat -> R) : R := rsum d1 (fun i => rsum d2 (fun j => (X i j)^2)).
+Definition rank_le (k : nat) (B : nat -> nat -> R) : Prop :=
+  exists X Y : nat -> nat -> R, forall i j, (i < d1)%nat -> (j < d2)%nat -> B i j = rsum k (fun t => X i t * Y t j).
+Hypothesis eckart_young : forall (s : list R) (U V : list (list R)),
+  svd_contract d1 d2 Mf false (U, s, V) ->
+  forall k B, rank_le k B ->
+  rsum (Nat.min d1 d2 - k) (fun t => (nth (k + t) s 0)^2) <= frob2 (fun i j => Mf i j - B i j).
+
+Theorem interface_best_approx_partial (oracle : bool -> triple R) (Ml : list (list R)) r flip ub iters sq eps U Sg V :
+  (forall f, svd_contract d1 d2 Mf f (oracle f)) -> (1 <= r <= Nat.min d1 d2)%nat ->
+  svd_interface Rops (fun _ _ => truncated_svd oracle d1 d2 (Some r)) MTruncated d2 Ml (Some r) flip ub None None iters sq eps
+    = Ok (U, Sg, V) ->
+  rank_le r (recon U Sg V) /\
+  forall B, rank_le r B -> frob2 (fun i j => Mf i j - recon U Sg V i j) <= frob2 (fun i j => Mf i j - B i j).
+Proof.
+  intros HC Hr E. destruct (interface_truncated_e2e oracle d1 d2 Mf Ml r flip ub iters sq eps U Sg V HC Hr E) as (ES & _ & _ & _ & _ & EE).
+  assert (LS : length Sg = r).
+  { rewrite ES, firstn_length. specialize (HC false). destruct (oracle false) as [[U0 S0] V0]. cbn [fst snd].
+    destruct HC as ((_ & L & _) & _). rewrite L. lia. }
+  split.
+  - exists (fun i t => mg U i t * nth t Sg 0), (mg V). intros i j _ _. unfold recon. now rewrite LS.
+  - intros B HB. unfold frob2 at 1. rewrite EE. specialize (HC false).
+    destruct (oracle false) as [[U0 S0] V0] eqn:EO. cbn [fst snd]. now apply (eckart_young S0 U0 V0 HC r B HB).
+Qed.
+End EckartYoung.
